@@ -208,6 +208,11 @@ def emit_module(classes: list[dict], postponed: bool, uid: int) -> tuple[str, Em
             base = ", ".join(em.node_name(b) for b in c["bases"])
         else:
             base = "ASTNode" if c["base"] is None else em.node_name(c["base"])
+        if c.get("plain_mixin_names") and base == "ASTNode" and not c.get("mixin_fields"):
+            # a plain class (no dataclass) listed after the node base that merely *annotates* names the node
+            # class declares as fields: it adds no field, but its annotations come first in get_type_hints()
+            body += f"\nclass PlainMix_{uid}:\n" + "".join(f"    {n}: Any\n" for n in c["plain_mixin_names"])
+            base = f"ASTNode, PlainMix_{uid}"
         if c.get("mixin_fields") and base == "ASTNode":
             # a plain (non-node) dataclass listed *after* the node base: its fields open the dataclass field order
             body += f"\n@dataclass(frozen=True)\nclass Mix_{uid}:\n"
@@ -223,7 +228,7 @@ def emit_module(classes: list[dict], postponed: bool, uid: int) -> tuple[str, Em
             args = []
             if dflt is not None:
                 args.append(f"default={dflt}")
-            for flag in ("init", "compare", "kw_only"):
+            for flag in ("init", "compare", "kw_only", "hash"):
                 if flag in f.get("flags", {}):
                     args.append(f"{flag}={f['flags'][flag]}")
             if len(args) == 1 and dflt is not None:
